@@ -26,6 +26,29 @@ CLAIMS = {
             "Bit-for-bit equality of results follows from these plus NumPy determinism, which is assumed, not shown.",
             "Trusted: API table aliasing rows (np.array copies, np.asarray aliases, slicing views, overwrite_x only "
             "destroys complex input); records are real-valued; parameter role tables."),
+    "C08": ("type inference by abstract interpretation (length / linearity / degree-in-dt / first-element / quadrature-tag domains) "
+            "of both branches of the array function, the lazy object properties and the peak functions",
+            "Derives for every record and dt, per branch of trap: velocity and displacement have the record's length, start at "
+            "exactly zero, are linear in the record, of degree 1 resp. 2 in dt (so displacement integrates velocity), and are "
+            "built by trapezoid resp. rectangle quadrature only; the object properties are these results for (values, dt); "
+            "PGA/PGV/PGD are even, non-negative, degree-1 absolute maxima of the right series. Increment identities hold to "
+            "the extent the SciPy row for cumulative_trapezoid is right; bit-level values are not examined.",
+            "Trusted: API rows cumulative_trapezoid/cumsum/zeros/slicing; absolute-maximum idiom table (sa/idioms.py)."),
+    "C09": ("type inference by abstract interpretation: one typing obligation per cumulative measure "
+            "(length, monotone, sign, degree in record and dt, parity, quadrature kind, source series)",
+            "Derives for all records at once that each of the seven series has the record's length, is non-negative and "
+            "non-decreasing, is even in the record, scales as alpha^2 or |alpha| and with the stated power of dt, and uses the "
+            "stated quadrature on the stated source; for standardised CAV: length, non-negativity, monotonicity (accumulator "
+            "argument), the 0.025 g gate on the window's peak |a|. Final numerical values are not examined.",
+            "Trusted: API rows; literal constants are compared with the numbers in the property statement (9.81, 0.025)."),
+    "C10": ("abstract interpretation with comparison-site enumeration: strictness and orientation of every threshold "
+            "comparison, equal-degree (scale-invariance) typing of both sides, first/last-of-same-index-array provenance",
+            "Decides the structure of the masks for every record: both significant-duration comparisons are strict with start on "
+            "the lower and end on the upper side (also through the deprecated forwarders), both sides have equal degree and even "
+            "parity so the result is scale- and sign-invariant and proportional to dt, start/end are the first/last element of "
+            "one ascending index array in (start, end) order with a non-negative difference, the user measure is honoured. "
+            "Shift-by-k and widening corollaries are consequences for monotone measures (typed in C09), not checked directly.",
+            "Trusted: API rows np.where/cumsum/cumulative_trapezoid; user-supplied measure modelled as an opaque positive-homogeneous value."),
 }
 NOT_YET = "check not built yet (build in progress, see DESIGN.md section 8)"
 
